@@ -337,6 +337,8 @@ func (w *world) run() {
 			b[0] = 0xC0
 		case "len0":
 			b = []byte{}
+		case "nil":
+			b = nil // a literally nil share: a "no share" sentinel must not be confused with it
 		case "len47":
 			b = append([]byte(nil), w.pool[from].Bytes[:47]...)
 		case "len49":
@@ -373,7 +375,7 @@ func (w *world) run() {
 		w.pool = append(w.pool, thrmodel.Share{Bytes: b, Kind: kind, TrueOf: trueOf})
 		return len(w.pool) - 1
 	}
-	badKinds := []string{"wrongsigner", "othermsg", "notG1", "offcurve", "xlarge", "badheader", "infinity", "len0", "len47", "len49", "negated", "random", "len96", "pair47_49", "pair0_96", "torsion"}
+	badKinds := []string{"wrongsigner", "othermsg", "notG1", "offcurve", "xlarge", "badheader", "infinity", "len0", "len47", "len49", "negated", "random", "len96", "pair47_49", "pair0_96", "torsion", "nil"}
 	w.env.Pool = nil // set after the pool is complete
 	if c.Bool(1, 3, "onekind") {
 		// swarm: only one kind of bad share in this run (so that e.g. ALL retained shares can be empty)
@@ -652,7 +654,7 @@ var (
 	e1CheckErr  error
 )
 
-var undecodable = map[string]bool{"offcurve": true, "xlarge": true, "badheader": true, "len0": true, "len47": true, "len49": true,
+var undecodable = map[string]bool{"nil": true, "offcurve": true, "xlarge": true, "badheader": true, "len0": true, "len47": true, "len49": true,
 	"len96": true, "pair47_49": true, "pair0_96": true}
 
 func sumMap(m map[string]int) int {
